@@ -177,6 +177,10 @@ class Instantiator:
         if re.search(r'\(proj \?\w+', txt):
             # does the opaque projection expression read every input column, or only the first one?
             ax['pjscope'] = ['all', 'narrow'] if (self.thorough or self.rule.applier) else ['all']
+            if self.rule.applier and '(scan ' in txt:
+                ax['pjscope'] += ['none', 'second']      # the projection reads no column at all / only the second one
+        if re.search(r'\(scan \?\w+ \?\w+ \?\w+\)', txt):
+            ax['scanfilter'] = ['true', 'key']        # the scan carries a pushed-down predicate on its first column, or none
         return ax
 
     def choices(self):
@@ -345,7 +349,10 @@ class Instantiator:
                     if k != 'true' and not (isinstance(k, str) and k.startswith('?')):
                         raise CannotInstantiate('scan filter pattern')
                     if isinstance(k, str) and k.startswith('?'):
-                        self.map[k] = 'true'
+                        if self.choice.get('scanfilter') == 'key' and getattr(self, 'scan_table', None) is not None:
+                            self.map[k] = ['>', '$%d.0' % self.scan_table, '0']
+                        else:
+                            self.map[k] = 'true'
                     continue
                 self._expr(k, visible(lsch) + list(outer), outer, 'B')
             elif kind == 'on':
@@ -407,7 +414,12 @@ class Instantiator:
                 cols = self._restrict(k, scope)
                 if self.choice.get('pjscope') == 'narrow':
                     cols = cols[:1]
-                self.map[k] = ['list', c0, uf(name, 'I', cols)] if c0 is not None else ['list', uf(name, 'I', cols)]
+                if self.choice.get('pjscope') == 'none':
+                    self.map[k] = ['list', '7']
+                elif self.choice.get('pjscope') == 'second' and len(c) > 1:
+                    self.map[k] = ['list', uf(name, 'I', [c[1]])]
+                else:
+                    self.map[k] = ['list', c0, uf(name, 'I', cols)] if c0 is not None else ['list', uf(name, 'I', cols)]
             elif kind == 'keylist':
                 if self.choice.get('gkeys') == 'uf':
                     self.map[k] = ['list', uf(name, 'I', self._restrict(k, scope))]
